@@ -129,6 +129,15 @@ def scenario(name, kind):
         if name.startswith("S16"):
             return [q, q], rend
         return [q, an(entity(x, x.b == 1))], rend
+    if name in ("S18_count_constrained_query_twice", "S19_two_count_constrained_queries_sharing_variable"):
+        # result count constraints that hold when each evaluation is counted on its own
+        from krrood.entity_query_language.result_quantification_constraint import Exactly, AtMost, AtLeast, Range
+        x = let(W.Item, dom(), name="x")
+        if name.startswith("S18"):
+            q = an(entity(x, x.a == 0), quantification=Exactly(2))
+            return [q, q], ent
+        return [an(entity(x, x.a == 0), quantification=Range(AtLeast(2), AtMost(2))),
+                an(entity(x, x.b == 1), quantification=AtMost(2))], ent
     if name == "S11_variable_as_condition_then_compared":
         # entities whose truth value is False; the shared variable is used as a bare condition in one query and as an
         # operand of a comparison in the other
@@ -197,6 +206,10 @@ def reference(name):
         return [sel(lambda i: i["flag"]), sel(lambda i: not i["flag"])]
     if name == "S15_shared_comparison_root_and_operand_of_or":
         return [sel(lambda i: i["a"] == 0), sel(lambda i: i["a"] == 0 or i["b"] == 1)]
+    if name == "S18_count_constrained_query_twice":
+        return [sel(lambda i: i["a"] == 0)] * 2
+    if name == "S19_two_count_constrained_queries_sharing_variable":
+        return [sel(lambda i: i["a"] == 0), sel(lambda i: i["b"] == 1)]
     if name in ("S16_rule_with_alternative_and_next_twice", "S17_rule_with_next_and_plain_sharing_variable"):
         # base a == 0 -> tag 1; else if b == 1 -> tag 2; next rule (always considered) b == 0 -> tag 3
         rule = sorted([f"Out1:{i['name']}" for i in I if i["a"] == 0]
@@ -211,7 +224,8 @@ SCENARIOS = ["S1_same_query_twice", "S2_shared_variable", "S3_shared_condition_o
              "S9_rule_and_plain_sharing_variable", "S11_variable_as_condition_then_compared",
              "S12_shared_attribute_expression", "S13_shared_attribute_root_condition_then_operand",
              "S14_shared_attribute_operand_then_root_condition", "S15_shared_comparison_root_and_operand_of_or",
-             "S16_rule_with_alternative_and_next_twice", "S17_rule_with_next_and_plain_sharing_variable"]
+             "S16_rule_with_alternative_and_next_twice", "S17_rule_with_next_and_plain_sharing_variable",
+             "S18_count_constrained_query_twice", "S19_two_count_constrained_queries_sharing_variable"]
 
 
 def isolated(name, kind, t):
